@@ -222,6 +222,34 @@ pub async fn open_archive(t: Transport) -> Result<Archive, String> {
     Archive::open(t).await.map_err(errstr)
 }
 
+thread_local! {
+    static HOLD_SRC: std::cell::Cell<bool> = const { std::cell::Cell::new(false) };
+    static HELD_SRC: std::cell::RefCell<Option<(std::path::PathBuf, conserve::SourceTree)>> = const { std::cell::RefCell::new(None) };
+}
+
+/// From now on (on this thread) every diff of one source directory goes through one `SourceTree`
+/// handle, opened by the first of them and kept while the directory changes underneath.
+pub fn hold_source(on: bool) {
+    HOLD_SRC.with(|h| h.set(on));
+    if !on {
+        HELD_SRC.with(|h| *h.borrow_mut() = None);
+    }
+}
+
+fn open_source(src: &Path) -> Result<conserve::SourceTree, String> {
+    if HOLD_SRC.with(|h| h.get()) {
+        if let Some((p, t)) = HELD_SRC.with(|h| h.borrow().clone()) {
+            if p == src {
+                return Ok(t);
+            }
+        }
+        let t = conserve::SourceTree::open(src).map_err(errstr)?;
+        HELD_SRC.with(|h| *h.borrow_mut() = Some((src.to_path_buf(), t.clone())));
+        return Ok(t);
+    }
+    conserve::SourceTree::open(src).map_err(errstr)
+}
+
 pub fn errstr(e: conserve::Error) -> String {
     format!("{e}: {e:?}").chars().take(400).collect()
 }
@@ -475,7 +503,7 @@ pub fn diff(t: Transport, band: Option<u32>, src: &Path, include_unchanged: bool
         block_on(async {
             let archive = open_archive(t).await?;
             let st = archive.open_stored_tree(sel(band)).await.map_err(errstr)?;
-            let lt = conserve::SourceTree::open(&src).map_err(errstr)?;
+            let lt = open_source(&src)?;
             let options = conserve::DiffOptions {
                 exclude: exclude(&excl),
                 include_unchanged,
